@@ -254,12 +254,63 @@ def head_local(ctx: Ctx):
                        "torchjd_graph": [ra, pa], "torch_twin": [rb, pb]})
 
 
+def empty_parameter(ctx: Ctx, api, retain, name):
+    """a parameter with NO element (an optional block of width 0) is a requested input like any other: the nodes that lead to
+    it alone are executed — and, with retain_graph=False, released — exactly as torch.autograd.backward does on the twin; the
+    follow-up probe goes through that block only"""
+    rng = ctx.rng
+    chunk = rng.choice([None, 1, 2, 3])
+    k = rng.choice([2, 3, 4])
+    xv = [float(rng.randint(1, 3)) for _ in range(3)]
+    wv = [[float(rng.randint(-2, 2)) for _ in range(3)] for _ in range(k)]
+
+    def build():
+        W = torch.tensor(wv, dtype=torch.float64, requires_grad=True)
+        x = torch.tensor(xv, dtype=torch.float64)
+        E = torch.zeros(k, 0, dtype=torch.float64, requires_grad=True)          # weights of the empty block
+        z = torch.zeros(0, dtype=torch.float64)
+        u = torch.tanh(E @ z)                                                   # saves E, z and its own result
+        h = torch.tanh(W @ x) + u
+        if api == "backward":
+            return W, E, u, h, h * h, None
+        losses = [(h * float(i + 1)).sum() ** 2 for i in range(2)]
+        return W, E, u, h, None, losses
+    A = build()
+    B = build()
+    if api == "backward":
+        ra = attempt(lambda: backward([A[4]], Sum(), inputs=[A[0], A[1]], retain_graph=retain, parallel_chunk_size=chunk))
+        rb = attempt(lambda: torch.autograd.backward([B[4]], grad_tensors=[torch.ones_like(B[4])], inputs=[B[0], B[1]], retain_graph=retain))
+    else:
+        ra = attempt(lambda: mtl_backward(A[5], [A[3]], Sum(), tasks_params=[[], []], shared_params=[A[0], A[1]],
+                                          retain_graph=retain, parallel_chunk_size=chunk))
+        rb = attempt(lambda: torch.autograd.backward(B[5], inputs=[B[0], B[1]], retain_graph=retain))
+    probe = (lambda G: torch.autograd.grad(G[2].sum(), G[1], retain_graph=True)) if name == "grad(u, E)" else \
+            (lambda G: torch.autograd.grad(G[3].sum(), G[0], retain_graph=True))
+    pa = attempt(lambda: probe(A))
+    pb = attempt(lambda: probe(B))
+    ga = None if A[1].grad is None else tuple(A[1].grad.shape)
+    gb = None if B[1].grad is None else tuple(B[1].grad.shape)
+    ctx.case(("empty-parameter", api, k, retain, chunk, name), nontrivial=True)
+    ctx.count("empty_parameter", f"{api}:{name}:{'retain' if retain else 'free'}")
+    if ra != rb or pa != pb or ga != gb:
+        ctx.violation(f"{api}(retain_graph={retain}, chunk {chunk}) with a zero-element parameter among the inputs, then {name}: "
+                      f"{ra} / {pa} (its .grad: {ga}) on the torchjd-driven graph, {rb} / {pb} (its .grad: {gb}) on the twin driven by "
+                      "torch.autograd.backward",
+                      {"family": "zero-element parameter", "api": api, "rows": k, "probe": name, "retain_graph": retain, "chunk": chunk,
+                       "torchjd_graph": [ra, pa, ga], "torch_twin": [rb, pb, gb]})
+
+
 def main(ctx: Ctx):
     ctx.lean_gate()
     for _ in range(6 if ctx.tier == "quick" else 300):
         many_rows(ctx)
     for _ in range(12 if ctx.tier == "quick" else 600):
         head_local(ctx)
+    for _ in range(2 if ctx.tier == "quick" else 80):
+        for api in ("backward", "mtl_backward"):
+            for retain in (False, True):
+                for name in ("grad(u, E)", "grad(h, W)"):
+                    empty_parameter(ctx, api, retain, name)
     n = 250 if ctx.tier == "quick" else 40000
     for i in range(n):
         if i % 2:
